@@ -40,7 +40,7 @@ def op_strategy(resets=True, gens=True, burn=False, custom=False, queries=False)
     noop = st.just(("o",))
     deep = st.tuples(st.just("d"), BIG, SIDE, KS)
     redundant = st.tuples(st.just("i"), BIG, SIDE, KS)
-    alts = [(8, prog), (7, deep), (8, near), (4, redundant), (3, flat), (3, rep), (1, noop)]
+    alts = [(11, prog), (11, deep), (8, near), (4, redundant), (3, flat), (3, rep), (1, noop)]
     if queries:
         alts.append((3, st.tuples(st.just("v"), st.integers(0, 59))))
         alts.append((4, st.tuples(st.just("s"), st.integers(0, 23), BIG, SIDE, KS)))
